@@ -180,6 +180,35 @@ def gen_sweep(rng, lo, hi, n_extra):
     return ops
 
 
+def gen_victims(pops, victims_of, tail=True):
+    """Enumerated: for every population P and every victim heap slot v, register P timers with ascending expiries (the k-th registered
+    timer then sits in heap slot k), unregister exactly the timer in slot v, look, and empty the store again (from the tail, which
+    moves nothing).  Reaches "the victim is the timer in the first slot of a radix level while the population is above / at / below
+    that level's boundary", which random victims hit with probability about 1/P per step."""
+    P = max(pops)
+    ops = [f"init {P}"]
+    for pop in pops:
+        for v in victims_of(pop):
+            if not 1 <= v <= pop:
+                continue
+            for i in range(pop):
+                ops.append(f"reg {i} {10 + i} 0")
+            ops.append(f"unreg {v - 1}")
+            ops.append("dump" if pop < 400 else "stat")
+            # a few more victims chosen by slot: the first of the second half, the new tail
+            ops.append(f"unreg {pop // 2}")
+            ops.append("stat")
+            rest = [i for i in range(pop) if i not in (v - 1, pop // 2)]
+            if tail:
+                ops.append(f"run {10 + pop // 3} 0")
+                ops.append("stat")
+                rest = [i for i in rest if i > pop // 3]
+            for i in reversed(rest):
+                ops.append(f"unreg {i}")
+            ops.append("stat")
+    return ops
+
+
 def gen_random(rng, n_t, n_ops, span):
     ops = [f"init {n_t}"]
     for _ in range(n_ops):
@@ -228,7 +257,11 @@ def gen_cases(tier, seed):
         yield (f"rand-{i}", gen_random(rng, n_t, rng.choice([60, 200, 600]), rng.choice([5, 50, 1000])), None)
     for i in range(10 if tier == "quick" else 80):
         yield (f"far-{i}", gen_random(rng, rng.choice([3, 6, 12, 40]), rng.choice([60, 200]), "far"), None)
+    yield ("victims-128", gen_victims([127, 128, 129, 130, 131, 200, 256, 257] if tier == "quick" else list(range(120, 140)) + [200, 255, 256, 257, 300],
+                                      lambda p: [1, 2, 3, 63, 64, 65, 126, 127, 128, 129, 130, p - 1, p]), "victim-slot-128")
     yield ("sweep-16384", gen_sweep(rng, 16380, 16390, 4), "boundary-16384")
+    yield ("victims-16384", gen_victims([16383, 16384, 16385, 16400] if tier == "quick" else [16383, 16384, 16385, 16386, 16400, 20000, 32768, 32769],
+                                        lambda p: [128, 129, 8192, 16383, 16384, 16385] if tier != "quick" else [128, 16384, 16385]), "victim-slot-16384")
     if tier == "thorough":
         yield ("sweep-40000", gen_sweep(rng, 16000, 40000, 4), "population-40000")
 
